@@ -504,7 +504,12 @@ func (sa *Safe) checkLenCovers(fr *frame, st *State, pos token.Pos) {
 				continue
 			}
 			v := sa.unwrap(e.Val)
-			if _, isC := v.isConst(); isC {
+			if _, isC := v.isConst(); isC && i+1 < len(log) {
+				// a constant is a legitimate length only if it equals the (constant) size of what follows: checked below
+				if !(strings.HasSuffix(e.Desc, ".Len") || strings.HasSuffix(e.Desc, ".GetLen()")) {
+					continue
+				}
+			} else if isC {
 				continue
 			}
 			shares := false
@@ -518,7 +523,9 @@ func (sa *Safe) checkLenCovers(fr *frame, st *State, pos token.Pos) {
 					}
 				}
 			}
-			if !shares {
+			// a field called Len / a GetLen() result is a length field by declaration
+			named := strings.HasSuffix(e.Desc, ".Len") || strings.HasSuffix(e.Desc, ".GetLen()") || strings.HasSuffix(e.Desc, "Length")
+			if !shares && !named {
 				continue
 			}
 			sum := linConst(0)
